@@ -58,7 +58,12 @@ def families(r, cls, nbase):
 def pairs(r, cls, nbase, cap):
     out = []
     for fam in families(r, cls, nbase):
-        for a, b in itertools.permutations(fam[:8], 2):
+        base = fam[0]
+        for x in fam[1:]:                      # the base against every variation, both ways round
+            out += [(base, x), (x, base)]
+        rest = fam[1:]
+        r.shuffle(rest)
+        for a, b in itertools.permutations(rest[:5], 2):   # and variations against one another
             out.append((a, b))
     r.shuffle(out)
     return out[:cap]
